@@ -38,14 +38,56 @@ def run_task(name):
         out["function"] = info
         if not ctx.obligations:
             out["status"] = "vacuous"
-        timeout = int(os.environ.get("PYVC_TIMEOUT_MS", "20000"))
+        timeout = int(os.environ.get("PYVC_TIMEOUT_MS", "10000"))
+        nbad = 0
         for ob in ctx.obligations:
+            if nbad >= 3:
+                # budget: after three failures the remaining VCs of this task are not attempted (undecided)
+                out["obligations"].append({"id": ob["id"], "kind": ob["kind"], "status": "unknown", "detail": "not attempted: three obligations of this task already failed", "time": 0, "solver": None})
+                continue
+            if nbad >= 1:
+                os.environ["PYVC_NO_PORTFOLIO"] = "1"
             r = verify.solve(ctx, ob, timeout)
             out["obligations"].append(r)
+            if r["status"] != "discharged":
+                nbad += 1
+                if os.environ.get("PYVC_STOP_FIRST"):
+                    break
         out["strfacts"] = len(ctx.strfacts)
+        # failed obligations are re-posed over a finite universe of names, where a false VC has a counter-model
+        # that z3 finds (DESIGN 3.4): `unknown` becomes `refuted` only with such a definite model
+        bad = [o for o in out["obligations"] if o["status"] == "unknown" and o.get("solver") is not None or o["status"] == "unknown" and "timeout" in str(o.get("detail"))][:3]
+        if bad and not os.environ.get("PYVC_NO_FINITE"):
+            for k in (4, 6):
+                fctx = Ctx(finite=k)
+                try:
+                    task(fctx)
+                except Exception:
+                    break
+                fobs = {ob["id"]: ob for ob in fctx.obligations}
+                still = []
+                for o in bad:
+                    ob = fobs.get(o["id"])
+                    if ob is None:
+                        continue
+                    r = verify.solve(fctx, ob, 15000)
+                    if r["status"] == "refuted":
+                        o["status"] = "refuted"
+                        o["detail"] = f"counter-model over a universe of {k} names"
+                        o["model"] = r.get("model", "")[:2500]
+                        o["solver"] = r["solver"] + f" finite-scope({k})"
+                    else:
+                        still.append(o)
+                bad = still
+                if not bad:
+                    break
     except Unsupported as u:
         out["status"] = "outside-subset"
         out["detail"] = str(u)
+    except (KeyError, AttributeError, TypeError, IndexError) as ex_:
+        # typically: an invariant/contract refers to a local or shape that the (changed) function no longer has
+        out["status"] = "outside-subset"
+        out["detail"] = f"contract no longer applicable to this body ({type(ex_).__name__}: {ex_}); " + traceback.format_exc()[-300:]
     except Exception:
         out["status"] = "crash"
         out["detail"] = traceback.format_exc()[-2000:]
